@@ -427,9 +427,16 @@ def fit_after(cls, text):
     return text
 
 
+GLUE = ['new_', 'admin_', 'os_', 'x-', 'my', 'original_', 'db.', 'NEW_', 'user', 'old']
+
+
 def make_part(rng, key, variant, rname, secret=None):
     k = spell(rng, key, variant)
     left, right = render(rng, rname, k)
+    if rname not in ('xml', 'ddash') and rng.random() < 0.15:
+        # the key as the tail of a longer field name (new_password=..., "admin_passphrase": ...): the glued
+        # text is neutral surrounding text; together with the key it may spell a second, overlapping key
+        left = left.replace(k, rng.choice(GLUE) + k, 1)
     if secret is None:
         secret = gen_secret(rng, rname)
     return {'key': key, 'variant': variant, 'rendering': rname, 'spelling': k,
